@@ -813,7 +813,7 @@ pub fn post_pause_walk(w: &mut World, when: &str, info: GcInfo) -> BTreeMap<u64,
         }
     }
     for rid in cleared_now.iter() {
-        if in_gc && !w.pause.cleared.contains(rid) && w.refs.get(rid).map(|r| !r.cleared).unwrap_or(false) {
+        if in_gc && !w.pause.cleared.contains(rid) && !w.cleared_ever.contains(rid) && w.refs.get(rid).map(|r| !r.cleared).unwrap_or(false) {
             violation(
                 "C06",
                 "referent-nulled-silently",
